@@ -586,6 +586,8 @@ def unit_copy_entities(twin=False):
                 else:
                     good = len(evs) == 1 and sh(evs[0]) == "Rxn_copy" and evs[0].args[0] is own and evs[0].args[1] is src and proved(hy, tm.eq(evs[0].args[2], I))
                     ok(r, "%s.targets.number_i_gets_a_copy_of_the_source_in_its_own_store%s" % (K, "" if "copy" not in got else "#%d" % k2), good, "trace+z3", repr(evs)); got.add("copy")
+        early = [s.status for s in stash.iter_states(n2) if s.status == "brk"] + [s.status for s in stash.iters.get(id(n2), []) if s.status in ("ret", "throw") or s.status.startswith("goto:")]
+        ok(r, "%s.targets.no_number_of_the_range_ends_the_walk_early(no_break/return_in_the_target_loop)" % K, not early, "symex", repr(early))
         ok(r, "reach.%s" % K, got == {"same", "copy"}, "symex", sorted(got), kind="vacuity", undecided=True)
         cl = [e for s in fin for e in s.events if sh(e) == "copier_clear"]
         ok(r, "%s.request_list_emptied_afterwards" % K, len(fin) == 1 and len(cl) == 1 and cl[0].args[0] is fmap(cp) and fin[0].events.index(cl[0]) > max(i for i, e in enumerate(fin[0].events) if e.name == "loop_passed"), detail=repr(cl))
